@@ -1800,6 +1800,29 @@ def _tee(vm, cal, args):
     return (Iter('list', items=xs, pos=0), Iter('list', items=xs, pos=0))
 
 
+# ---- wide / ultraviolet f32x8: lanes are opaque here (packing and arithmetic are decided by engine K, C16)
+@reg(('f32x8', None, 'as_array_ref'))
+def _f32x8_as_array_ref(vm, cal, args):
+    v = vm.deref(as_ref(args[0]))
+    tag = v.tag if isinstance(v, Opaque) else str(v)
+    return Ref(Cell(tuple(Opaque('f32', '%s[%d]' % (tag, i)) for i in range(8)), 'lanes'))
+
+
+@reg(('VecDeque', None, 'as_slices'))
+def _vd_as_slices(vm, cal, args):
+    # std promises only that the two slices, concatenated, are the contents: the split point depends on the ring
+    # buffer's history, so it is a fresh nondeterministic choice (a caller that reads only one slice is caught)
+    r = to_slice_ref(vm, as_ref(args[0]))
+    xs = seq_of(vm, r)
+    k = vm.choose_n(len(xs) + 1, "as_slices split")
+    return (Ref(Cell(VecV(tuple(xs[:k]), 'slice'), 'front')), Ref(Cell(VecV(tuple(xs[k:]), 'slice'), 'back')))
+
+
+@reg(('VecDeque', None, 'make_contiguous'))
+def _vd_make_contiguous(vm, cal, args):
+    return to_slice_ref(vm, as_ref(args[0]))
+
+
 # ---- rayon: par_iter().map().collect() has the contract of the sequential map
 @reg(('*', 'IntoParallelRefIterator', 'par_iter'), ('*', 'IntoParallelIterator', 'into_par_iter'))
 def _par_iter(vm, cal, args):
